@@ -111,12 +111,12 @@ func c14One(c *vk.Case, set c14Set, seed uint64) {
 	d := &model.Decl{Name: namePoolIG[0], Enabled: true, Table: namePoolTbl[0], ColTypes: map[string]string{}, InFilter: map[string]model.Filter{}}
 	d.Sources = []model.SrcRef{{Name: namePoolSrc[0], Start: 1}}
 	// a third of the runs stores the fields under columns of other names (the column name is the user's choice; what
-	// is fetched depends on the field); identity and trace columns keep their names
+	// is fetched, and whether rows are per transaction or per trace, depends on the field); identity columns keep their names
 	rename := r.Chance(1, 3)
 	for _, n := range set.fields {
 		fi := gen.FieldByName(n)
 		col := n
-		if rename && !isTraceField(n) && n != "block_num" && n != "tx_idx" && n != "log_idx" && fi.Class != "ctx" {
+		if rename && n != "block_num" && n != "tx_idx" && n != "log_idx" && fi.Class != "ctx" {
 			col = "c_" + n
 		}
 		d.Block = append(d.Block, model.BlockField{Name: n, Column: col, ColType: fi.ColType})
